@@ -360,23 +360,35 @@ class CFG:
             self._flags = cand - bad
         return self._flags
 
-    def _flag_edge_ok(self, node, kind, st):
+    def _flag_edge_ok(self, node, kind, st, atom=None):
         if node.kind != 'test' or kind not in ('true', 'false'):
             return True
-        t = node.ast
-        pos = True
-        while isinstance(t, ast.UnaryOp) and isinstance(t.op, ast.Not):
-            pos = not pos
-            t = t.operand
-        if isinstance(t, ast.Name) and t.id in st:
-            v = bool(st[t.id])
-            if not pos:
-                v = not v
-            return kind == ('true' if v else 'false')
-        return True
+
+        def ev(e):
+            if isinstance(e, ast.BoolOp):
+                vals = [ev(v) for v in e.values]
+                if isinstance(e.op, ast.And):
+                    if any(v is False for v in vals):
+                        return False
+                    return True if all(v is True for v in vals) else None
+                if any(v is True for v in vals):
+                    return True
+                return False if all(v is False for v in vals) else None
+            if isinstance(e, ast.UnaryOp) and isinstance(e.op, ast.Not):
+                v = ev(e.operand)
+                return None if v is None else (not v)
+            if isinstance(e, ast.Name) and e.id in st:
+                return bool(st[e.id])
+            if atom is not None:
+                return atom(e)
+            return None
+        v = ev(node.ast)
+        if v is None:
+            return True
+        return kind == ('true' if v else 'false')
 
     def reach_flags(self, starts, avoid=(), edge_ok=None, include_start=False, init=None,
-                    states=False):
+                    states=False, atom=None):
         """Like reach(), but tracks the values of the flag locals along each path and prunes
         branches on them (abstract interpretation of the guards only)."""
         flags = self.flag_names()
@@ -402,7 +414,7 @@ class CFG:
                 st = step(s, init)
                 for d, k in self.succ[s]:
                     if (edge_ok is None or edge_ok(s, d, k)) and \
-                            self._flag_edge_ok(self.nodes[s], k, dict(st)):
+                            self._flag_edge_ok(self.nodes[s], k, dict(st), atom):
                         work.append((d, st))
         while work:
             n, st = work.pop()
@@ -412,7 +424,7 @@ class CFG:
             st2 = step(n, st)
             for d, k in self.succ[n]:
                 if (edge_ok is None or edge_ok(n, d, k)) and \
-                        self._flag_edge_ok(self.nodes[n], k, dict(st2)):
+                        self._flag_edge_ok(self.nodes[n], k, dict(st2), atom):
                     work.append((d, st2))
         if states:
             return {(n, st) for n, st in seen}
@@ -430,6 +442,33 @@ class CFG:
             a = n.ast if n.ast is not None else n.stmt
             if a is not None and id(a) in inside:
                 out.add(n.id)
+        return out
+
+    def dominating_literals(self, nid, expand=None):
+        """Branch literals that hold on EVERY path from the entry to node *nid*: for each test
+        node, if *nid* is unreachable once the true (false) edge of the test is removed, the
+        test is known true (false) at *nid*.  Unlike syntactic nesting this also sees early
+        ``return`` / ``continue`` / ``break`` guards.  Returns [(expr, positive)] with ``not``
+        pushed inwards and conjunctions split; *expand(expr)* may substitute locals."""
+        from .variance import split_literals
+        out = []
+        live = self.reach([self.entry], include_start=True)
+        if nid not in live:
+            return out
+        for t in self.nodes:
+            if t.kind != 'test' or t.id == nid or t.id not in live:
+                continue
+            kinds = {k for d, k in self.succ[t.id]}
+            for pol, k in ((True, 'true'), (False, 'false')):
+                if k not in kinds:
+                    continue
+                r = self.reach([self.entry], include_start=True,
+                               edge_ok=lambda s_, d_, k_, t=t, k=k: not (s_ == t.id and k_ == k))
+                if nid not in r:
+                    e = t.ast
+                    if expand is not None:
+                        e = expand(e)
+                    out += split_literals(e, pol)
         return out
 
     def flag_states_at(self, nid):
